@@ -20,6 +20,7 @@ const (
 	kUnknown = iota
 	kScrub   // nil, false, length 0
 	kConst   // integer constant k
+	kParam   // (summaries only) the value of the callee's parameter number k: resolved at the call site when the argument is a constant
 )
 
 type fieldVal struct {
@@ -154,6 +155,10 @@ func (cf *CtxFlow) classifyStore(st *ssa.Store) (ssa.Value, ctxWrite, bool) {
 				}
 			} else if n, ok := constInt(st.Val); ok {
 				wv.kind, wv.k = kConst, n
+			} else if prm, ok := st.Val.(*ssa.Parameter); ok && prm.Parent() != nil {
+				if bt, ok := prm.Type().Underlying().(*types.Basic); ok && bt.Info()&types.IsInteger != 0 {
+					wv.kind, wv.k = kParam, int64(paramIndex(prm.Parent(), prm))
+				}
 			}
 		}
 		return base, wv, true
@@ -221,7 +226,7 @@ func (cf *CtxFlow) effects(fn *ssa.Function, pidx int, bind binding, depth int) 
 			}
 		} else {
 			e.must = e.must || must
-			if e.kind != wv.kind || (wv.kind == kConst && e.k != wv.k) || wv.self {
+			if e.kind != wv.kind || ((wv.kind == kConst || wv.kind == kParam) && e.k != wv.k) || wv.self {
 				e.kind = kUnknown
 			}
 			e.keepsScr = e.keepsScr && scr
@@ -256,13 +261,14 @@ func (cf *CtxFlow) effects(fn *ssa.Function, pidx int, bind binding, depth int) 
 					}
 					sub := cf.effects(callee, j, bindArgs(fn, bind, x, callee), depth+1)
 					for f, e := range sub {
+						e = resolveParamEffect(e, args)
 						wv := ctxWrite{field: f, kind: e.kind, k: e.k}
 						cur, seen := out[f]
 						if !seen {
 							cur = fieldEffect{any: true, must: e.must && mustBlocks[b], kind: e.kind, k: e.k, keepsScr: e.keepsScr}
 						} else {
 							cur.must = cur.must || (e.must && mustBlocks[b])
-							if cur.kind != wv.kind || (wv.kind == kConst && cur.k != wv.k) {
+							if cur.kind != wv.kind || ((wv.kind == kConst || wv.kind == kParam) && cur.k != wv.k) {
 								cur.kind = kUnknown
 							}
 							cur.keepsScr = cur.keepsScr && e.keepsScr
@@ -371,7 +377,7 @@ func (cf *CtxFlow) Run(fn *ssa.Function, obj ssa.Value, def ssa.Instruction, vis
 					}
 					eff := cf.effects(callee, j, bindArgs(fn, nil, x, callee), 0)
 					for _, f := range cf.fields {
-						s.f[f] = applyEffect(s.f[f], eff[f])
+						s.f[f] = applyEffect(s.f[f], resolveParamEffect(eff[f], args))
 					}
 				}
 			}
@@ -438,4 +444,19 @@ func (cf *CtxFlow) acquisitions(p *Proto, fn *ssa.Function) (vals []ssa.Value, d
 		defs = append(defs, c)
 	})
 	return
+}
+
+// resolveParamEffect turns "stores the value of parameter k" into a constant when the call passes one (c.scrub(RedirectHandler)).
+func resolveParamEffect(e fieldEffect, args []ssa.Value) fieldEffect {
+	if e.kind != kParam {
+		return e
+	}
+	if int(e.k) < len(args) {
+		if n, ok := constInt(args[e.k]); ok {
+			e.kind, e.k = kConst, n
+			return e
+		}
+	}
+	e.kind, e.k = kUnknown, 0
+	return e
 }
